@@ -298,6 +298,11 @@ func c17Gen(t *rapid.T) C17Case {
 			c.Recs = append(c.Recs, model.Rec{TS: datagen.BaseTS + int64(len(c.Recs))*250e6, Line: gen.BS(rapid.SampledFrom([]string{"(", "[a-", "plain", "a{2,1}"}).Draw(t, "tc-line")), Labels: map[string]string{}})
 		}
 		for i := range c.Recs {
+			// A line serves as a regular expression over itself: matching costs pattern x text, so
+			// a 70 KB line is a request for seconds of work, not a hang.
+			if len(c.Recs[i].Line) > 256 {
+				c.Recs[i].Line = c.Recs[i].Line[:256]
+			}
 			if rapid.Bool().Draw(t, "tc-has-a") {
 				c.Recs[i].Labels["a"] = rapid.SampledFrom([]string{"(", "[a-", "*", "x", "Nowhere/Land", "%!d", "2006-01-02"}).Draw(t, "tc-a")
 			}
